@@ -32,6 +32,7 @@ def packno(ino):
 # ----------------------------------------------------------------------------- container well-formedness (precondition)
 def container_wf(vc, w, c, T, durable=False):
     """WF(W): what every public operation may rely on and must re-establish (C03)."""
+    w = FS.snap(w)
     ent, idata = w.ent, w.idata
     h = c.f['$hash']
 
@@ -43,8 +44,10 @@ def container_wf(vc, w, c, T, durable=False):
     if durable:
         yield 'every_indexed_range_is_durable', Forall(lambda k: implies(T.has(k), row_ok(w, T, c, k, synced=True)))
     # no hard links between pack files (packno is a ghost inverse: one inode, one pack id)
-    yield 'pack_inodes_are_pack_files', Forall(lambda i: implies(w.inode_at(pack_pid(c, i)) != 0, b_and(
-        kind(w.inode_at(pack_pid(c, i))) == PACK, packno(w.inode_at(pack_pid(c, i))) == i)), sort='pack')
+    nxt0 = w.next_ino
+    yield 'pack_inodes_are_pack_files', Forall(lambda i: b_and(implies(w.inode_at(pack_pid(c, i)) != 0, b_and(
+        kind(w.inode_at(pack_pid(c, i))) == PACK, packno(w.inode_at(pack_pid(c, i))) == i)),
+        w.inode_at(pack_pid(c, i)) >= 0, w.inode_at(pack_pid(c, i)) < nxt0), sort='pack')
     yield 'pack_paths_are_files', Forall(lambda i: b_and(b_not(w.is_dir(pack_pid(c, i))), b_not(w.is_dir(lock_pid(c, i)))), sort='pack')
     # representation invariant of the world: directory entries point at allocated inodes
     nxt = w.next_ino
@@ -56,10 +59,11 @@ def container_wf(vc, w, c, T, durable=False):
 # ----------------------------------------------------------------------------- _clean_loose_objects
 def _loop_clean(vc, L):
     c = L.self
-    w = vc.world
+    live = vc.world
+    w = FS.snap(live)
     done = L.done
     ent0 = L.__getattr__('$ent0')
-    yield 'index_untouched', SBool.of(SQL.db_of_world(w, vc).table is L.__getattr__('$table0'))
+    yield 'index_untouched', SBool.of(SQL.db_of_world(live, vc).table is L.__getattr__('$table0'))
     yield 'visited_loose_files_removed', Forall(lambda k: implies(done.has(k), w.inode_at(loose_pid(c, k)) == 0))
     yield 'other_loose_files_untouched', Forall(lambda k: implies(b_not(done.has(k)),
                                                                   w.inode_at(loose_pid(c, k)) == SInt(z3.Select(ent0, loose_pid(c, k).t))))
@@ -89,6 +93,7 @@ class CleanLooseObjects(CUnit):
     def pre(self, vc, a):
         w = vc.world
         T = SQL.db_of_world(w, vc).table
+        w = FS.snap(w)
         keys = a.keys
         yield 'only_committed_keys', Forall(lambda k: implies(keys.has(k), T.has(k)))
         yield from layout_inv(vc, w, a.self)
@@ -101,7 +106,7 @@ class CleanLooseObjects(CUnit):
         return NS(ent=w.ent, idata=w.idata, keys=a.keys)
 
     def post(self, vc, a, o, ret):
-        w, c = vc.world, a.self
+        w, c = FS.snap(vc.world), a.self
         yield 'requested_loose_files_removed', Forall(lambda k: implies(o.keys.has(k), w.inode_at(loose_pid(c, k)) == 0))
         yield 'other_loose_files_untouched', Forall(lambda k: implies(b_not(o.keys.has(k)),
                                                                       w.inode_at(loose_pid(c, k)) == SInt(z3.Select(o.ent, loose_pid(c, k).t))))
@@ -350,16 +355,23 @@ def _pal_loop_inner(vc, L):
     yield 'empty_batch_has_no_keys', Forall(lambda k: implies(B.n == 0, b_not(B.keys.has(k))))
     yield 'batch_keys_are_popped_loose_keys', Forall(lambda k: implies(B.keys.has(k), b_and(W.R.has(k), b_not(R.has(k)))))
 
-    def batch_ok(k):
+    def batch_conseq(k):
         bt = B.table
         off, ln, sz, comp = bt.col('offset', k), bt.col('length', k), bt.col('size', k), bt.col('compressed', k)
         stored = logical.slice(off, off + ln)
         content = EM.dec(comp, stored)
-        return implies(B.keys.has(k), b_and(
+        return b_and(
             bt.col('pack_id', k) == last, off >= len_lock, ln >= 0, off + ln <= logical.length(),
             implies(comp, EM.zvalid(stored)), EM.H(h, content) == SStr.of(k), content.length() == sz,
-            implies(b_not(comp), ln == sz)))
-    yield 'batch_rows_designate_what_was_appended', Forall(batch_ok)
+            implies(b_not(comp), ln == sz))
+
+    def batch_cases(k):
+        newest = vc.ghost.get('$newest_key')
+        if newest is None:
+            return [('any', SBool.of(True))]
+        return [('the_object_just_appended', SStr.of(k) == SStr.of(newest), SStr.of(newest)),
+                ('an_earlier_object', SStr.of(k) != SStr.of(newest))]
+    yield 'batch_rows_designate_what_was_appended', ForallCases(lambda k: B.keys.has(k), batch_cases, batch_conseq)
     yield 'descriptors', SBool.of([f.num for f in w.open_fds if f is not ph.fdrec] == G(vc, '$fds0'))
 
 
@@ -417,7 +429,8 @@ class PackAllLoose(CUnit):
         cur_ = c.f['_current_pack_id']
         if cur_ is not None:
             yield 'cached_pack_id_nonneg', SInt.of(cur_) >= 0
-        yield 'no_stale_lock', Forall(lambda i: w.inode_at(lock_pid(c, i)) == 0, sort='pack')
+        fw = FS.snap(w)
+        yield 'no_stale_lock', Forall(lambda i: fw.inode_at(lock_pid(c, i)) == 0, sort='pack')
 
     def snapshot(self, vc, a):
         w, c = vc.world, a.self
